@@ -1,17 +1,19 @@
 open Model
 open Common
 (* see harness/report.go *)
-let names = [| "a"; "b"; "c"; "default"; "e" |]
+let names = [| "a"; "b"; "clean"; "default"; "e" |]
+let vnames = [| "ALPHA"; "BETA"; "DELTA"; "GAMMA" |]
 let nm n = names.(int_of_nat n)
 let ints s = if s = "" then [] else List.map (fun x -> nat_of_int (int_of_string x)) (split_on '.' s)
 let parse_cmd (e : string) : cmdres =
   let shape = e.[0] in
   let rest = String.sub e 1 (String.length e - 1) in
   let marker, status = match split_on '.' rest with [m; s] -> (m, int_of_string s) | _ -> failwith "bad cmd" in
-  let text = match shape with
+  let body = match shape with
     | 'o' -> "echo " ^ marker | 'e' -> "echo " ^ marker ^ " >&2"
     | 'x' -> Printf.sprintf "echo %s; exit %d" marker status | 'k' -> Printf.sprintf "exit %d" status
     | _ -> Printf.sprintf "echo %s; echo %s >&2" marker marker in
+  let text = "echo " ^ marker ^ " >>\"$T\"; " ^ body in
   let out = if shape = 'o' || shape = 'x' || shape = 'b' then marker ^ "\n" else "" in
   let err = if shape = 'e' || shape = 'b' then marker ^ "\n" else "" in
   { c_cmd = bytes_of_string text; c_out = bytes_of_string out; c_err = bytes_of_string err; c_status = nat_of_int status }
@@ -22,7 +24,11 @@ let canon rs = "[" ^ String.concat "," (List.map (fun r ->
 let run_report ic =
   iter_lines ic (fun line ->
     match split_on '|' line with
-    | [tds; invs] ->
+    | [vs; tds; invs] ->
+      let vars = if vs = "" then [] else List.map (fun v ->
+        match split_on '=' v with
+        | [n; h] -> (nat_of_int (int_of_string n), bytes_of_hex h)
+        | _ -> failwith "bad var") (split_on ',' vs) in
       let defs = List.map (fun t ->
         match split_on ':' t with
         | [n; deps; lit; cmds] ->
@@ -35,29 +41,39 @@ let run_report ic =
         | [fl; req; ed] ->
           if ed <> "-" then st := apply_op_i !st (Edit (O, Some (nat_of_int (int_of_string (String.sub ed 1 (String.length ed - 1))))));
           let has c = String.contains fl c in
-          let f = { f_quiet = has 'q'; f_json = has 'j'; f_force = has 'f'; f_show = has 's' } in
-          let req = if req = "-" then [] else [nat_of_int (int_of_string req)] in
-          let (s', ob) = invoke (fun _ l -> l) defs !st f req in
+          let f = { f_quiet = has 'q'; f_json = has 'j'; f_force = has 'f'; f_show = has 's'; f_vars = has 'v'; f_clean = has 'c' } in
+          let req = if req = "-" then [] else ints req in
+          let (s', ob) = invoke (fun _ l -> l) defs vars !st f req in
           st := s';
           let errs = match ob.ob_error with
             | None -> "none"
-            | Some (ECommandFailed (t, _, s)) -> Printf.sprintf "cmdfail:%s:%d" (nm t) (int_of_nat s)
+            | Some (ECommandFailed (t, _, s)) -> if (not f.f_vars) && (not f.f_clean) && (not f.f_show) && List.length req > 1 then "cmdfail" else Printf.sprintf "cmdfail:%s:%d" (nm t) (int_of_nat s)
             | Some _ -> "other" in
           let exit = int_of_nat ob.ob_exit in
-          let listing = (match ob.ob_stdout with SDListing _ -> true | _ -> false)
-                        || (f.f_show) || (req = [] && not (List.exists (fun d -> d.td_name = nat_of_int 3) defs)) in
+          let has_t k = List.exists (fun d -> d.td_name = nat_of_int k) defs in
+          let listing = not f.f_vars && not f.f_clean && (f.f_show || (req = [] && not (has_t 3))) in
+          let many = (not f.f_vars) && (not f.f_clean) && (not f.f_show) && List.length req > 1 in
+          let by_name rs = if many then List.sort (fun a b -> compare (nm a.tr_name) (nm b.tr_name)) rs else rs in
           let outs =
-            if listing && not f.f_quiet && not f.f_json then
+            if f.f_vars then
+              (match ob.ob_stdout with
+               | SDVars l -> "vars=" ^ String.concat "," (List.map (fun (n, v) -> vnames.(int_of_nat n) ^ "=" ^ hexs v) l)
+               | SDNothing -> "empty" | _ -> "vars=?")
+            else if f.f_clean && not (has_t 2) then
+              (match ob.ob_stdout with SDNothing -> "empty" | SDCleaned -> "cleaned" | _ -> "?")
+            else if listing && not f.f_quiet && not f.f_json then
               (match ob.ob_stdout with SDListing l -> "list=" ^ String.concat "," (List.map nm l) | _ -> "list=?")
             else if (f.f_quiet && not f.f_json) || listing then
               (match ob.ob_stdout with SDNothing -> "empty" | _ -> "nonempty")
             else if f.f_json && exit = 0 then
-              (match ob.ob_stdout with SDJson rs -> "json=" ^ canon rs | _ -> "json=?")
+              (match ob.ob_stdout with SDJson rs -> "json=" ^ canon (by_name rs) | _ -> "json=?")
             else if f.f_json then
               (match ob.ob_stdout with SDNothing -> "empty" | _ -> "nonempty")
             else
               (match ob.ob_stdout with
-               | SDText ms -> "msgs=" ^ String.concat "," (List.map (function MSkipped n -> nm n ^ ":s" | MCompleted n -> nm n ^ ":c") ms)
+               | SDText ms ->
+                 let l = List.map (function MSkipped n -> nm n ^ ":s" | MCompleted n -> nm n ^ ":c") ms in
+                 if many && exit <> 0 then "msgs=?" else "msgs=" ^ String.concat "," (if many then List.sort compare l else l)
                | _ -> "msgs=") in
           Printf.sprintf "exit=%d err=%s out=%s" exit errs outs
         | _ -> failwith "bad inv") (split_on ';' invs) in
